@@ -258,7 +258,21 @@ def clean_struct(text, pubfields):
     return text[:op + 1] + '\n'.join(out) + text[cl:]
 
 
-def load_template(template_path, depth=0):
+def template_variants(template_path):
+    """`//@ variants a b c` declares that the unit is instantiated once per name; `//@ variant-args <name> <verus args>`
+    gives extra verus arguments for one variant.  Lines between `//@ if <names>` and `//@ fi` are kept only in those variants."""
+    names, vargs = ['main'], {}
+    for ln in open(template_path).read().split('\n'):
+        t = ln.strip()
+        if t.startswith('//@ variants '):
+            names = t.split()[2:]
+        elif t.startswith('//@ variant-args '):
+            parts = t.split()
+            vargs[parts[2]] = parts[3:]
+    return names, vargs
+
+
+def load_template(template_path, depth=0, variant='main'):
     """returns list of (text, unit, lineno); `//@ include <file>` is expanded in place
     (path relative to the contracts/ directory, i.e. the parent of units/)"""
     if depth > 5:
@@ -267,18 +281,29 @@ def load_template(template_path, depth=0):
     out = []
     base = os.path.dirname(os.path.abspath(template_path))
     croot = base if os.path.basename(base) != 'units' else os.path.dirname(base)
+    keep = True
     for i, ln in enumerate(open(template_path).read().split('\n')):
         s = ln.strip()
+        if s.startswith('//@ if '):
+            keep = variant in s.split()[2:]
+            continue
+        if s == '//@ fi':
+            keep = True
+            continue
+        if s.startswith('//@ variants') or s.startswith('//@ variant-args'):
+            continue
+        if not keep:
+            continue
         if s.startswith('//@') and s[3:].strip().startswith('include '):
             inc = s[3:].strip().split()[1]
-            out += load_template(os.path.join(croot, inc), depth + 1)
+            out += load_template(os.path.join(croot, inc), depth + 1, variant)
         else:
             out.append((ln, unit, i + 1))
     return out
 
 
-def instantiate(template_path, repo_root):
-    tl = load_template(template_path)
+def instantiate(template_path, repo_root, variant='main'):
+    tl = load_template(template_path, 0, variant)
     tlines = [t[0] for t in tl]
     gen = Generated()
     gen.template_files = sorted(set(t[1] for t in tl))
